@@ -16,6 +16,8 @@
 //     like a silent one while a session sending valid heartbeats survives.
 //  5. ssh tunnel gateway: unlisted keys never reach frps; without an authorized-keys file the virtual
 //     client needs the token.
+//  6. stall: connections that never send a byte must not keep an existing session (tcpMux off, websocket)
+//     from bringing up work connections.
 package main
 
 import (
@@ -54,7 +56,7 @@ func fatal(what string, err error) {
 
 func main() {
 	run = h.NewRun(prop, "exploration")
-	run.Rule = "attack cases: PRNG sequence of 4-10 steps (login without valid key x 18 token / 19 OIDC key classes x fuzzed fields x run-id choice {none, fresh, victim's, incumbent's} x pipelined follow-ups; 17 hand-written JSON login bodies; 22 non-login first messages; work connections for 8 unknown-session classes or a known session with an invalid key; heartbeats with invalid keys) against one of 10 server configurations (token/OIDC x scope subsets, mux off) over one of 6 transports; barrage cases: 60-480 concurrent refused attempts while the incumbent's tunnel is probed; heartbeat cases: (server, transport, key class, valid prefix); ssh cases: (gateway kind, variant). distinct = distinct (kind, server, transport, multiset of step kinds and key classes)"
+	run.Rule = "attack cases: PRNG sequence of 4-10 steps (login without valid key x 18 token / 19 OIDC key classes x fuzzed fields x run-id choice {none, fresh, victim's, incumbent's} x pipelined follow-ups; 17 hand-written JSON login bodies; 22 non-login first messages; work connections for 8 unknown-session classes or a known session with an invalid key; heartbeats with invalid keys) against one of 10 server configurations (token/OIDC x scope subsets, mux off) over one of 6 transports; barrage cases: 60-480 concurrent refused attempts while the incumbent's tunnel is probed; heartbeat cases: (server, transport, key class, valid prefix); ssh cases: (gateway kind, variant); stall cases: 4-6 silent websocket connections against a server without tcp multiplexing while the incumbent needs fresh work connections; 1 in 8 attack cases speaks the other multiplexing framing than the listener expects. distinct = distinct (kind, server, transport, multiset of step kinds and key classes)"
 	run.Assumptions = []string{
 		"a key 'matches' exactly when it equals md5(token||timestamp) for the timestamp sent (token) / is a token the fake issuer signed, unexpired, for the configured audience (OIDC); replay of an old but matching key is not a violation of the property as stated",
 		"with the NewWorkConns scope off the run id is the only credential of a work connection (frp's design); only unknown run ids are judged there",
@@ -128,16 +130,27 @@ func main() {
 			tr = "websocket"
 		}
 		inc, err := loginHonest(s, tr, "inc", "INC-"+s.Name, pool)
+		if err == nil {
+			s.Inc, s.IncPort, s.IncProxy = inc, s.PortLo, "inc."+s.Name+".tcp"
+			var resp *msg.NewProxyResp
+			if resp, err = inc.P.NewProxy(&msg.NewProxy{ProxyName: s.IncProxy, ProxyType: "tcp", RemotePort: s.IncPort}, 20*time.Second); err == nil && resp.Error != "" {
+				err = fmt.Errorf("%s", resp.Error)
+			}
+			if err == nil {
+				_, err = probeTCP(s.IncPort, inc.ID+"|")
+			}
+		}
+		if err != nil && s == stallSrv {
+			// the websocket incumbent is needed by the stall cases only
+			fmt.Fprintln(os.Stderr, "stall server unusable:", err)
+			if s.Inc != nil {
+				s.Inc.Close()
+			}
+			s.Inc = nil
+			continue
+		}
 		if err != nil {
 			fatal("incumbent on "+s.Name, err)
-		}
-		s.Inc, s.IncPort, s.IncProxy = inc, s.PortLo, "inc."+s.Name+".tcp"
-		resp, err := inc.P.NewProxy(&msg.NewProxy{ProxyName: s.IncProxy, ProxyType: "tcp", RemotePort: s.IncPort}, 20*time.Second)
-		if err != nil || resp.Error != "" {
-			fatal("incumbent proxy on "+s.Name, fmt.Errorf("%v %v", err, resp))
-		}
-		if _, err := probeTCP(s.IncPort, inc.ID+"|"); err != nil {
-			fatal("incumbent probe on "+s.Name, err)
 		}
 	}
 	// real frpc incumbents where both scopes are on (real clients sign heartbeats and work connections)
